@@ -52,7 +52,8 @@ type Expr struct {
 	C     *Expr    `json:"c"`
 	Th    *Expr    `json:"th"`
 	El    *Expr    `json:"el"`
-	Raw   string   `json:"raw"` // k = "raw": literal VCL text (totality cases only)
+	Raw   string   `json:"raw"`  // k = "raw": literal VCL text (totality cases only)
+	Bits  []int    `json:"bits"` // k = "bits": INTEGER literal as its 64-bit two's-complement pattern
 }
 
 type Arm struct {
@@ -90,6 +91,8 @@ type Val struct {
 	E    int      `json:"e"`
 	B    bool     `json:"b"`
 	MS   int64    `json:"ms"`
+	Sub  int64    `json:"sub"` // RTIMEX: the part finer than a millisecond, in nanoseconds
+	Neg  bool     `json:"neg"` // RTIMEX: sign
 	Set  bool     `json:"set"`
 	CS   []string `json:"cs,omitempty"`
 }
@@ -265,6 +268,12 @@ func (r Renderer) Expr(e *Expr) string {
 		return "false"
 	case "rtime":
 		return rtimeText(e.MS)
+	case "bits":
+		var u uint64
+		for _, b := range e.Bits {
+			u = u<<1 | uint64(b)
+		}
+		return strconv.FormatInt(int64(u), 10)
 	case "id":
 		return ConcreteName(r.Scope, e.Name)
 	case "raw":
@@ -563,6 +572,13 @@ func Same(exp Val, got Got) bool {
 		return got.T == "BOOL" && got.B == exp.B
 	case "RTIME":
 		return got.T == "RTIME" && got.NS == exp.MS*1000000
+	case "RTIMEX":
+		// a computed duration with a sub-millisecond part: the whole milliseconds (cut toward zero) and the sign are
+		// compared, of the finer part only that there is one (its exact value depends on the clock resolution)
+		if got.T != "RTIME" || got.NS%1000000 == 0 || (got.NS < 0) != exp.Neg {
+			return false
+		}
+		return got.NS/1000000 == exp.MS
 	case "STR":
 		if got.T != "STR" || got.Set != exp.Set {
 			return false
@@ -590,6 +606,8 @@ func ShowVal(v Val) string {
 		return fmt.Sprintf("BOOL %v", v.B)
 	case "RTIME":
 		return fmt.Sprintf("RTIME %dms", v.MS)
+	case "RTIMEX":
+		return fmt.Sprintf("RTIME %dms + %dns (neg=%v)", v.MS, v.Sub, v.Neg)
 	case "STR":
 		if !v.Set {
 			return "STR not-set"
